@@ -29,6 +29,7 @@ var (
 	c16pAsync        = sim.RegStat("probe:c16-async-write")
 	c16pTransient    = sim.RegStat("probe:c16-async-write-failed-once-with-a-transient-error")
 	c16pBurst        = sim.RegStat("probe:c16-several-writes-submitted-back-to-back")
+	c16pNearRoom     = sim.RegStat("probe:c16-frame-ends-within-20-bytes-of-the-write-buffer-end")
 	c16pChain        = sim.RegStat("probe:c16-write-started-from-inside-a-write-completion")
 	c16p64           = sim.RegStat("probe:c16-64-bit-length-written")
 )
@@ -47,6 +48,22 @@ func (d *c16) payload(n int) []byte {
 	p := make([]byte, n)
 	d.w.DataBytes(p)
 	return p
+}
+
+// nearRoom: a payload size that makes the encoded frame end within a few bytes
+// of the end of the stream's write buffer (whose size is state of the stream:
+// it grows with the longest message written so far and never shrinks).
+func (d *c16) nearRoom() int {
+	room := d.ws.VerifWriteRoom()
+	size := room - d.w.Range(0, 20)
+	if size < 0 || size > d.max {
+		size = 4096 - d.w.Range(0, 20)
+	}
+	if size > d.max {
+		size = d.max
+	}
+	d.w.Stat(c16pNearRoom)
+	return size
 }
 
 func (d *c16) writeMsg(size int, async bool) {
@@ -112,6 +129,9 @@ func (d *c16) writeChain() {
 		if size > d.max {
 			size = d.max
 		}
+		if w.Chance(1, 4) {
+			size = d.nearRoom()
+		}
 		if d.lastSize >= 0 && size < d.lastSize {
 			w.Stat(c16pReuseLonger)
 		}
@@ -147,6 +167,9 @@ func (d *c16) writeBurst() {
 		size := w.Pick(10, 0, 125, 126, 3000, 65536)
 		if size > d.max {
 			size = d.max
+		}
+		if w.Chance(1, 4) {
+			size = d.nearRoom()
 		}
 		d.lastSize = size
 		p := d.payload(size)
@@ -396,7 +419,9 @@ func runC16(c *Ctx, variant int) {
 			d.writeChain()
 		case 0, 1, 2, 3:
 			var size int
-			switch w.Choose(9) {
+			switch w.Choose(11) {
+			case 9, 10:
+				size = d.nearRoom()
 			case 0:
 				size = 0
 			case 1:
